@@ -3,6 +3,25 @@
 # seeded/RESULTS.md.  Uses scratch worktrees of /repo (tools/try_mutation.sh); /repo itself is never modified.
 cd /verif
 declare -A EXTRA=( [C01]="C08" [C03]="C04" [C10]="C04" [C15]="C01" [C09]="C12" [C13]="" [C14]="C04" )
+# optional arguments: seeded IDs to (re-)run; their rows are replaced in RESULTS.md, all other rows are kept
+if [ $# -gt 0 ]; then
+  for id in "$@"; do
+    prop=${id%%-*}; d=seeded/$id
+    [ -f $d/patch.diff ] || { echo "no such seeded change: $id"; continue; }
+    grep -v "^| $id |" seeded/RESULTS.md > seeded/RESULTS.md.tmp; mv seeded/RESULTS.md.tmp seeded/RESULTS.md
+    for chk in $prop ${EXTRA[$prop]}; do
+      res=$(timeout 2400 tools/try_mutation.sh $PWD/$d/patch.diff $chk 2>&1)
+      if echo "$res" | grep -q "PATCH DOES NOT APPLY"; then r="patch does not apply on current HEAD";
+      elif echo "$res" | grep -q "^VIOLATION.*no-failing-input-found" && ! echo "$res" | grep "^VIOLATION" | grep -qv "no-failing-input-found"; then r="caught (tie broken, no-failing-input-found)";
+      elif echo "$res" | grep -q "^VIOLATION"; then r="caught, concrete failing input";
+      elif echo "$res" | tail -1 | grep -q "violations=[1-9]"; then r="caught, concrete failing input";
+      else r="NOT caught: $(echo "$res" | tail -1 | cut -c1-100)"; fi
+      echo "| $id | $chk | $r |" >> seeded/RESULTS.md
+      echo "$id $chk $r"
+    done
+  done
+  exit 0
+fi
 out=seeded/RESULTS.md
 { echo "# Seeded changes vs. checks (quick tier, seed ${VERIF_SEED:-1}, /repo HEAD $(git -C /repo log --format=%h -1))"; echo;
   echo "| seeded change | check | result |"; echo "|---|---|---|"; } > $out
